@@ -43,7 +43,7 @@ Post(tt, hh, n, extra) == [ok |-> extra /\ ShapeOK(tt, n) /\ ClassifyOK(hh, tt, 
 
 Advance(d) ==
     /\ now' = now + d /\ UNCHANGED <<t, hist>>
-    /\ chk' = Post(t, hist, now', TRUE) /\ Log([op |-> "adv", d |-> d])
+    /\ chk' = Post(t, hist, now', NoSpuriousDropT(hist, t, now, t, now')) /\ Log([op |-> "adv", d |-> d])
 
 OfferGood(id, a) ==
     LET c == AsGood(id, a, now)  t2 == TAdd(t, c, now)  h == Handle(c)
@@ -62,12 +62,12 @@ OfferQuest(id, a) ==
 MarkLocal(id, a) ==
     LET h == [id |-> id, addr |-> a]  t2 == TMarkLocal(t, h, now)  h2 == HQuerySent(hist, h, t, now) IN
     /\ t' = t2 /\ hist' = h2 /\ UNCHANGED now
-    /\ chk' = Post(t2, h2, now, TRUE) /\ Log([op |-> "local", id |-> id, addr |-> a])
+    /\ chk' = Post(t2, h2, now, NoSpuriousDrop(h2, t, t2, now)) /\ Log([op |-> "local", id |-> id, addr |-> a])
 
 MarkRemote(id, a) ==
     LET h == [id |-> id, addr |-> a]  t2 == TMarkRemote(t, h, now)  h2 == HQueryFrom(hist, h, t, now) IN
     /\ t' = t2 /\ hist' = h2 /\ UNCHANGED now
-    /\ chk' = Post(t2, h2, now, TRUE) /\ Log([op |-> "remote", id |-> id, addr |-> a])
+    /\ chk' = Post(t2, h2, now, NoSpuriousDrop(hist, t, t2, now)) /\ Log([op |-> "remote", id |-> id, addr |-> a])
 
 Next ==
     /\ steps < MAXSTEPS /\ steps' = steps + 1
